@@ -273,6 +273,16 @@ func pool(rng *rand.Rand, t *transp.Table, n int) []uint64 {
 	for i := range buckets {
 		buckets[i] = rng.IntN(nb)
 	}
+	// the first and the last buckets are where index arithmetic goes wrong first
+	switch rng.IntN(3) {
+	case 0:
+		buckets[0] = nb - 1
+	case 1:
+		buckets[0] = nb - 1 - rng.IntN(min(nb, 4))
+		if nbk > 1 {
+			buckets[1] = 0
+		}
+	}
 	var p []uint64
 	for len(p) < n {
 		b := buckets[rng.IntN(nbk)]
@@ -348,6 +358,22 @@ func sequence(r *ev.Run, lc *ev.Local, rng *rand.Rand, size int, nops int, wk in
 			if rng.IntN(3) != 0 {
 				m.clear()
 			}
+		case x < 991:
+			// resize dance: down, clear, up again, clear - every key stored before must be gone
+			old := append([]uint64(nil), p...)
+			cur := m.t.VerifBuckets() * 32
+			small := sizes[rng.IntN(3)]
+			if small >= cur {
+				small = 32
+			}
+			m.resize(small)
+			m.clear()
+			m.resize(cur)
+			m.clear()
+			for _, h := range old {
+				m.lookup(rng, op{Op: "lookup", Hash: h, Ply: rng.IntN(64)})
+			}
+			lc.C["resize_down_clear_up_clear_dances"]++
 		case x < 993:
 			gen = 253 + rng.IntN(3) // jump next to the wrap
 		default:
@@ -402,7 +428,7 @@ func TestCheck(t *testing.T) {
 	for i := range lcs {
 		lcs[i] = ev.NewLocal()
 	}
-	sizes := []int{32, 64, 96, 128, 160, 32000, 32032, 1 << 20, 1<<20 + 32}
+	sizes := []int{32, 64, 96, 128, 160, 32000, 32032, 1 << 20, 1<<20 + 32, 1<<20 + 64, 1<<20 + 96, 2<<20 + 32}
 	ev.Parallel(nseq, func(wk, i int) {
 		rng := r.RNG("c15-seq", i)
 		size := sizes[i%len(sizes)]
@@ -473,7 +499,7 @@ func TestCheck(t *testing.T) {
 		})
 	}
 	floors := []string{"stores", "probes", "hits", "misses", "evictions", "keep_deeper_exceptions", "null_move_stores_keeping_older_move", "mate_score_stores", "clears", "resizes",
-		"generation_wraps", "zero_signature_stores", "hits_through_same_bucket_and_signature_alias", "ops_after_resize_without_clear(memory_safety_only)", "lane_matcher_cases"}
+		"generation_wraps", "zero_signature_stores", "hits_through_same_bucket_and_signature_alias", "ops_after_resize_without_clear(memory_safety_only)", "lane_matcher_cases", "resize_down_clear_up_clear_dances"}
 	r.Finish(floors...)
 }
 
